@@ -196,9 +196,16 @@ inline std::vector<std::string> abStrings(size_t lo, size_t hi) {
   return r;
 }
 
-inline std::vector<Num> roleValues(Role r, size_t len, size_t srcLen, size_t cap, uint64_t first) {
+inline std::vector<Num> roleValues(Role r, size_t len, size_t srcLen, size_t cap, uint64_t first, bool safety = false) {
   std::vector<Num> v;
   auto rangeZ = [&](uint64_t lo, uint64_t hi) { for (uint64_t k = lo; k <= hi && hi != UINT64_MAX; ++k) v.push_back(num('z', static_cast<int64_t>(k))); };
+  if (safety && r != R_NONE && r != R_SCNTLE && r != R_INT) {
+    // C10 grid: everything from 0 to two behind the larger of length/source length/capacity, and the wrap-around values
+    rangeZ(0, std::max(std::max(len, srcLen), cap) + 2);
+    v.push_back(num('n', -1));
+    v.push_back(num('n', 0));
+    return v;
+  }
   switch (r) {
     case R_NONE: v.push_back(Num()); break;
     case R_POS: rangeZ(0, len); break;
@@ -219,9 +226,9 @@ inline std::vector<Num> roleValues(Role r, size_t len, size_t srcLen, size_t cap
   return v;
 }
 
-inline void enumerateModel(const std::function<bool(const Case &)> &cb) {
-  const size_t maxCap = static_cast<size_t>(verif::opt("maxcap", 3));
-  const size_t maxText = static_cast<size_t>(verif::opt("maxtext", 3));
+inline void enumerateCases(bool safety, const std::function<bool(const Case &)> &cb) {
+  const size_t maxCap = static_cast<size_t>(verif::opt("maxcap", safety ? 2 : 3));
+  const size_t maxText = static_cast<size_t>(verif::opt("maxtext", safety ? 2 : 3));
   const uint64_t shards = static_cast<uint64_t>(verif::opt("shards", 1)), shard = static_cast<uint64_t>(verif::opt("shard", 0));
   const std::string peerText = "ba";
   uint64_t counter = 0;
@@ -232,7 +239,7 @@ inline void enumerateModel(const std::function<bool(const Case &)> &cb) {
       const size_t peerLen = std::min(peerText.size(), cap);
       for (int kind = 0; kind < K_COUNT; ++kind) {
         const OpInfo &info = opInfo(kind);
-        if (kind == K_iter_walk) continue;
+        if (kind == K_iter_walk && !safety) continue;
         std::vector<int> srcs;
         if (info.srcMask) { for (int s : {int(SRC_FS4), int(SRC_PEER), int(SRC_SELF), int(SRC_TEMPL)}) if (info.srcMask & (1 << s)) srcs.push_back(s); }
         else srcs.push_back(0);
@@ -240,7 +247,7 @@ inline void enumerateModel(const std::function<bool(const Case &)> &cb) {
           const bool fixedSource = info.srcMask && (src == SRC_PEER || src == SRC_SELF);
           std::vector<std::string> tx;
           if (!(info.strFlags & S_USED) || fixedSource) tx.push_back("");
-          else for (auto &t : texts) if (!(info.strFlags & S_NONEMPTY) || !t.empty()) tx.push_back(t);
+          else for (auto &t : texts) if (safety || !(info.strFlags & S_NONEMPTY) || !t.empty()) tx.push_back(t);
           for (const std::string &t : tx) {
             size_t srcLen = t.size();
             if (info.srcMask) {
@@ -249,13 +256,16 @@ inline void enumerateModel(const std::function<bool(const Case &)> &cb) {
               else if (src == SRC_TEMPL) srcLen = std::min(t.size(), cap);
               else srcLen = std::min<size_t>(t.size(), kSrcCap0);
             }
-            for (int v = 0; v < info.variants; ++v) {
+            // iter_walk: iterator type x first step kind (the following two steps are "none"), start and step value from the grid
+            const int variants = kind == K_iter_walk ? 32 : info.variants;
+            for (int vv = 0; vv < variants; ++vv) {
+              const int v = kind == K_iter_walk ? (vv | (6 << 5) | (6 << 8)) : vv;
               for (int ch : {int('a'), int('b')}) {
                 if (!info.usesCh && ch == 'b') continue;
-                for (const Num &a : roleValues(info.r[0], len, srcLen, cap, 0))
-                  for (const Num &b : roleValues(info.r[1], len, srcLen, cap, static_cast<uint64_t>(a.off)))
-                    for (const Num &cc : roleValues(info.r[2], len, srcLen, cap, 0))
-                      for (const Num &d : roleValues(info.r[3], len, srcLen, cap, static_cast<uint64_t>(cc.off))) {
+                for (const Num &a : roleValues(info.r[0], len, srcLen, cap, 0, safety))
+                  for (const Num &b : roleValues(info.r[1], len, srcLen, cap, static_cast<uint64_t>(a.off), safety))
+                    for (const Num &cc : roleValues(kind == K_iter_walk ? R_NONE : info.r[2], len, srcLen, cap, 0, safety))
+                      for (const Num &d : roleValues(kind == K_iter_walk ? R_NONE : info.r[3], len, srcLen, cap, static_cast<uint64_t>(cc.off), safety)) {
                         if (shards > 1 && (counter++ % shards) != shard) continue;
                         Case c;
                         c.cap = cap;
@@ -278,4 +288,9 @@ inline void enumerateModel(const std::function<bool(const Case &)> &cb) {
   }
 }
 
+}  // namespace fsx
+
+namespace fsx {
+inline void enumerateModel(const std::function<bool(const Case &)> &cb) { enumerateCases(false, cb); }
+inline void enumerateSafety(const std::function<bool(const Case &)> &cb) { enumerateCases(true, cb); }
 }  // namespace fsx
